@@ -261,7 +261,7 @@ impl Prop for C19 {
         } else {
             // the library's own verdict on this query
             match &reference.result {
-                Some(Ok(Resp::Generic { json: gj, original, .. })) => {
+                Some(Ok(Resp::Generic { json: gj, original, nonfinite, .. })) => {
                     probes.push("valid_invocation");
                     let mut expected = if scn.mode == "generic" { gj.clone() } else { original.clone() };
                     // HashSet-backed lists have no order (and a per-process random one)
@@ -332,6 +332,14 @@ impl Prop for C19 {
                                 match bytes.and_then(|b| bson::Document::from_reader(&mut b.as_slice()).map_err(|e| e.to_string())) {
                                     Err(e) => viol(format!("{fam}|not-bson"), "output does not decode to one BSON document", "hex / base64 of one BSON document".into(), e),
                                     Ok(doc) => {
+                                        // BSON can carry NaN and the infinities: they must arrive as such
+                                        let want = nonfinite[usize::from(scn.mode != "generic")];
+                                        let got = crate::entry::count_nonfinite(&bson::Bson::Document(doc.clone()));
+                                        if got != want {
+                                            viol(format!("{fam}|bson-non-finite-values-lost"), "NaN / infinite values of the response are not in the BSON document", format!("{want} non-finite doubles"), format!("{got}"));
+                                        } else if want > 0 {
+                                            probes.push("bson_non_finite_value_carried");
+                                        }
                                         let mut v = bson_to_json(&bson::Bson::Document(doc));
                                         canon(&mut v);
                                         if !numeric_equal(&expected, &v) {
